@@ -590,6 +590,10 @@ func (sh *Shard) Get(address []byte) *Account {
 	acc := sh.Accounts[string(address)]
 	if acc == nil {
 		acc = &Account{sh: sh, Addr: append([]byte{}, address...), Storage: map[string][]byte{}, Balance: new(big.Int), DevReward: new(big.Int)}
+		// what an account is besides its token storage - its transaction nonce and its native
+		// balance - is none of the token functions' business; accounts differ in both (a function
+		// of the address, see ambient)
+		acc.Nonce, acc.Balance = ambient(address)
 		sh.Accounts[string(address)] = acc
 	}
 	return acc
@@ -793,8 +797,24 @@ func (a *Account) restoreFrom(c *Account) {
 	a.DevReward = new(big.Int).Set(c.DevReward)
 }
 
+// isEmpty: the account is what LoadAccount would create for its address (so that even a pause
+// LOOKUP, which materialises an empty system account, leaves the canonical state unchanged).
 func (a *Account) isEmpty() bool {
-	return len(a.Storage) == 0 && a.Balance.Sign() == 0 && len(a.Owner) == 0 && len(a.UserName) == 0 && a.DevReward.Sign() == 0 && len(a.CodeMeta) == 0 && a.Nonce == 0
+	n, b := ambient(a.Addr)
+	return len(a.Storage) == 0 && a.Balance.Cmp(b) == 0 && len(a.Owner) == 0 && len(a.UserName) == 0 && a.DevReward.Sign() == 0 && len(a.CodeMeta) == 0 && a.Nonce == n
+}
+
+// ambient: the transaction nonce and native balance an account has when it first appears - a
+// function of the address, so that clones, replays and roll-backs agree. System addresses (ff..,
+// metachain contracts) start at zero.
+func ambient(address []byte) (uint64, *big.Int) {
+	if len(address) != 32 || address[0] == 0xff || (address[30] == 0xff && address[31] == 0xff) {
+		return 0, new(big.Int)
+	}
+	h := fnv.New32a()
+	h.Write(address)
+	v := h.Sum32()
+	return []uint64{0, 1, 77, 1 << 32, ^uint64(0)}[v%5], []*big.Int{new(big.Int), big.NewInt(1), new(big.Int).Exp(big.NewInt(10), big.NewInt(18), nil), new(big.Int).Lsh(big.NewInt(1), 70)}[(v/5)%4]
 }
 
 // ---------------------------------------------------------------------------------------------
@@ -921,6 +941,17 @@ func (w *World) Diff(before *Snapshot) []Change {
 }
 
 func diffAccount(out []Change, shard uint32, addr string, b, a *Account) []Change {
+	// an account that is not there (yet / any more) counts as the one LoadAccount would create
+	if b == nil || a == nil {
+		n, bal := ambient([]byte(addr))
+		d := &Account{Addr: []byte(addr), Storage: map[string][]byte{}, Balance: bal, DevReward: new(big.Int), Nonce: n}
+		if b == nil {
+			b = d
+		}
+		if a == nil {
+			a = d
+		}
+	}
 	var bs, as map[string][]byte
 	if b != nil {
 		bs = b.Storage
